@@ -71,8 +71,8 @@ Proof. exact compiled_params_numbered. Qed.
 Print Assumptions C03_compiled_partial.
 
 (** every parameter a reference resolves to carries that reference's number *)
-Theorem C03_resolve_keeps_number : forall e tables aliases dt names r ps,
-  resolve_one e tables aliases dt names r = Ok ps -> Forall (fun p => p_num p = ref_number r) ps.
+Theorem C03_resolve_keeps_number : forall e tables bare aliases dt names r ps,
+  resolve_one e tables bare aliases dt names r = Ok ps -> Forall (fun p => p_num p = ref_number r) ps.
 Proof. exact resolve_one_numbers. Qed.
 Print Assumptions C03_resolve_keeps_number.
 
